@@ -69,8 +69,12 @@ def ret_payload(k, rv):
     return struct.pack("<Q", rv)[:spec_size(s)]
 
 
+FINISH_FN = 14              # UFTRACE_TRIGGER=f14@finish; UFTRACE_SIGNAL=SIGUSR1@finish
+
+
 def prod_env(with_args):
-    env = {"UFTRACE_FILTER": ";".join("!f%d" % k for k in NOTRACE)}
+    env = {"UFTRACE_FILTER": ";".join("!f%d" % k for k in NOTRACE), "UFTRACE_TRIGGER": "f%d@finish" % FINISH_FN,
+           "UFTRACE_SIGNAL": "SIGUSR1@finish"}
     if with_args:
         env["UFTRACE_ARGUMENT"] = ";".join("f%d@%s" % (k, ",".join(v)) for k, v in sorted(ARGSPEC.items()))
         env["UFTRACE_RETVAL"] = ";".join("f%d@%s" % (k, v) for k, v in sorted(RETSPEC.items()))
@@ -81,7 +85,7 @@ def gen_case(rng, boundary=None):
     """one store-level case.  ops: ("E", k, t, a1, a2) / ("X", t, rv)"""
     with_args = rng.random() < 0.6
     cap = rng.choice([32, 48, 48, 64, 64, 80, 96, 128, 256, 4080])
-    nops = rng.randrange(2, 28)       # the first hook call sets the thread up (prepare_shmem_buffer): never the kill op
+    nops = rng.randrange(1, 28)       # (the first hook call also sets the thread up: prepare_shmem_buffer)
     ops, stack, t = [], [], 1000
     for _ in range(nops):
         t += rng.randrange(1, 50)
@@ -92,17 +96,29 @@ def gen_case(rng, boundary=None):
             k = stack.pop()
             ops.append(("X", t, rng.randrange(1 << 40)))
         else:
-            k = rng.randrange(NFUNC) if with_args else rng.choice([0, 7, 8, 10, 11, 12, 12])
+            k = rng.choice([x for x in range(NFUNC) if x != FINISH_FN]) if with_args else rng.choice([0, 7, 8, 10, 11, 12, 12])
             stack.append(k)
             ops.append(("E", k, t, rng.randrange(1 << 48), rng.randrange(1 << 32)))
     mode = rng.choice(["kill", "kill", "kill", "kill", "segv", "abrt", "exit", "end"])
     if boundary:
         mode = boundary
-    if mode == "kill" and len(ops) < 2:
-        mode = "segv"          # the first hook call sets the thread up: it is never the kill op
+    end, close = None, None
+    x = rng.random()
+    if boundary is None and x < 0.30 and not (stack and stack[-1] in NOTRACE):
+        # the recording of this thread ends between two hook calls: finish trigger, signal trigger, thread end
+        end = rng.choice(["trigger", "signal", "signal", "tend"])
+        if mode == "kill":
+            mode = rng.choice(["exit", "segv", "end"])
+        if end == "trigger":
+            t += 7
+            ops.append(("E", FINISH_FN, t, 0, 0))
+    if boundary is None and len(ops) >= 3 and rng.random() < 0.25:
+        close = rng.randrange(1, len(ops))          # another thread's mcount_trace_finish closes the pipe before this op
     sync = [rng.random() < 0.3 for _ in ops]
+    if end == "signal" and ops[-1][0] == "E":
+        sync[-1] = False        # (that entry hook only runs mtd_dtor: it is not an op of the model)
     e = rng.randrange(0, 9) if mode == "kill" else None
-    return {"cap": cap, "ops": ops, "sync": sync, "mode": mode, "e": e, "args": with_args}
+    return {"cap": cap, "ops": ops, "sync": sync, "mode": mode, "e": e, "args": with_args, "end": end, "close": close}
 
 
 def case_script(c):
@@ -112,6 +128,10 @@ def case_script(c):
         if c["sync"][i]:
             lines.append("S")
             actions.append("R")
+        if c.get("close") == i:
+            lines.append("CLOSE")
+        if c.get("end") == "signal" and i == n - 1:
+            lines.append("SIG")
         if c["mode"] == "kill" and i == n - 1:
             lines.append("S")
             actions.append("K%d" % c["e"])
@@ -119,6 +139,8 @@ def case_script(c):
             lines.append("E %d %d %d %d" % (o[1], o[2], o[3], o[4]))
         else:
             lines.append("X %d %d" % (o[1], o[2]))
+    if c.get("end") == "tend":
+        lines.append("TEND")
     if c["mode"] == "kill":
         lines.append("S")
         actions.append("K0")
@@ -169,9 +191,17 @@ def coq_nats(l):
     return "[" + "; ".join("%d" % x for x in l) + "]"
 
 
+def model_ops(c):
+    """the hook calls that reach the recording code: after a signal trigger an entry hook only runs mtd_dtor"""
+    ops = c["ops"]
+    if c.get("end") == "signal" and ops and ops[-1][0] == "E":
+        return ops[:-1]
+    return ops
+
+
 def coq_ops(c, f0):
     out, stack = [], []
-    for o in c["ops"]:
+    for o in model_ops(c):
         if o[0] == "E":
             k = o[1]
             stack.append(k)
@@ -185,11 +215,17 @@ def coq_ops(c, f0):
 
 
 def coq_case(c, r, f0):
+    end = c.get("end")
+    flush = (end == "trigger") if end else c["mode"] in ("segv", "abrt")
+    nmo = len(model_ops(c))
     return ("{| tc_single := " + coq.coq_bool(SINGLE_BUMP) + "; tc_cap := %d; tc_ops := %s; tc_sync := [%s]; tc_kill := %s; tc_flush := %s; "
+            "tc_close := %d; tc_end := %d; "
             "tc_shl := %s; tc_shf := %s; tc_wl := %s; tc_file := %s |}" % (
-                c["cap"], coq_ops(c, f0), "; ".join(coq.coq_bool(b) for b in c["sync"]),
+                c["cap"], coq_ops(c, f0), "; ".join(coq.coq_bool(b) for b in c["sync"][:nmo]),
                 ("Some %d" % c["e"]) if c["mode"] == "kill" else "None",
-                coq.coq_bool(c["mode"] in ("segv", "abrt")),
+                coq.coq_bool(flush),
+                c["close"] if c.get("close") is not None else nmo + 9,
+                {None: 0, "trigger": 1, "signal": 1, "tend": 1 if c.get("close") is not None else 2}[end],
                 coq_nats(r["shl"]), coq_bytes(r["shf"]), coq_nats(r["wl"]), coq_bytes(r["file"])))
 
 
@@ -205,6 +241,7 @@ def eval_store(ctx, cases, results, f0, name="cases_store"):
     res = coq.run_cases(ctx, name, PRE, defs, [
         ("mismatch", "bad_indices agrees cases 0"),
         ("violations", "bad_indices ok_case cases 0"),
+        ("dark", "bad_indices (fun tc => negb (is_dark (tc_state tc))) cases 0"),
     ])
     if res is None:
         return None
@@ -220,7 +257,7 @@ def model_obs(ctx, c, r, f0):
 
 def case_json(c, r=None):
     j = {"cap": c["cap"], "ops": [list(o) for o in c["ops"]], "sync": c["sync"], "mode": c["mode"], "e": c["e"],
-         "args": c["args"]}
+         "args": c["args"], "end": c.get("end"), "close": c.get("close")}
     if r is not None:
         j["impl"] = {"status": r.get("status"), "shl": r.get("shl"), "shf": r.get("shf"), "wl": r.get("wl"),
                      "file": r.get("file", b"").hex()}
@@ -229,7 +266,7 @@ def case_json(c, r=None):
 
 def case_from_json(j):
     return {"cap": j["cap"], "ops": [tuple(o) for o in j["ops"]], "sync": j["sync"], "mode": j["mode"], "e": j["e"],
-            "args": j["args"]}
+            "args": j["args"], "end": j.get("end"), "close": j.get("close")}
 
 
 def build_store(ctx, objdir):
@@ -277,9 +314,41 @@ def store_cases(ctx):
             cases.append({"cap": 64, "args": args, "mode": mode, "ops": ops2, "sync": [False, False, True, False, False, False],
                           "e": 0 if mode == "kill" else None, "directed": "norecord-innermost"})
     cases += shrink_cases()
+    cases += finish_cases()
+    # killed inside the thread's very first hook call (mcount_prepare -> prepare_shmem_buffer): before REC_START 0,
+    # after the buffer's flag is set, after the call
+    for e in (0, 1, 2):
+        for k, args in ((0, False), (1, True), (12, False)):
+            cases.append({"cap": 64, "args": args, "mode": "kill", "ops": [("E", k, 1010, 5, 6)], "sync": [False], "e": e,
+                          "end": None, "close": None, "directed": "first-hook-call"})
     for _ in range(ctx.n(70, 1200)):
         cases.append(gen_case(rng))
     return cases
+
+
+def finish_cases():
+    """directed: the recording of the thread ends between two hook calls (finish trigger with open calls, signal
+    trigger picked up by an entry / by an exit hook, thread end), and the pipe is closed by another thread before a
+    buffer switch (the thread goes dark) - followed by every way of dying"""
+    out = []
+    base = [("E", 0, 1010, 1, 2), ("E", 1, 1020, 3, 4), ("E", 7, 1030, 0, 0), ("X", 1040, 0), ("E", 3, 1050, 5, 6)]
+    for cap in (48, 4080):
+        for args in (False, True):
+            def mk(ops, mode, end=None, close=None, e=None, sync=None):
+                return {"cap": cap, "args": args, "mode": mode, "ops": ops, "sync": sync or [False] * len(ops), "e": e,
+                        "end": end, "close": close, "directed": "finish"}
+            out.append(mk(base + [("E", FINISH_FN, 1060, 0, 0)], "exit", end="trigger"))
+            out.append(mk(base + [("E", FINISH_FN, 1060, 0, 0)], "segv", end="trigger",
+                          sync=[False, False, False, True, False, False]))
+            out.append(mk(base + [("E", 8, 1060, 0, 0)], "end", end="signal"))           # entry hook: only mtd_dtor
+            out.append(mk(base + [("X", 1060, 9)], "exit", end="signal"))                 # exit hook: records, then mtd_dtor
+            out.append(mk(base + [("X", 1060, 9)], "exit", end="tend"))
+            more = base + [("X", 1060, 9), ("X", 1070, 9), ("E", 10, 1080, 0, 0), ("X", 1090, 0), ("X", 1100, 9), ("E", 11, 1110, 9, 9)]
+            for close in (1, 3, 6):
+                out.append(mk(more, "exit", close=close))
+                out.append(mk(more, "kill", close=close, e=2))
+                out.append(mk(more, "segv", close=close, sync=[False] * 7 + [True] + [False] * 3))
+    return out
 
 
 def shrink_cases():
@@ -332,6 +401,7 @@ def run_store(ctx, objdir):
     res = eval_store(ctx, good_c, good_r, f0)
     if res is None:
         return ret_exe
+    dark = set(res["dark"])
     for i, (c, r) in enumerate(zip(good_c, good_r)):
         nrec = len(r["file"]) // 16
         tags = ["store:mode=" + c["mode"], "store:cap=%d" % c["cap"]]
@@ -347,6 +417,12 @@ def run_store(ctx, objdir):
             tags.append("store:kill-in-history-with-payload-records")
         if c.get("directed"):
             tags.append("store:directed-" + c["directed"])
+        if i in dark and c.get("close") is not None:
+            tags.append("store:thread-went-dark(REC_END/REC_START-lost)")
+        if c.get("end"):
+            tags.append("store:recording-ends-by-" + c["end"])
+        if c.get("close") is not None:
+            tags.append("store:pipe-closed-by-another-thread")
         ctx.case(key=("store", json.dumps(case_json(c), sort_keys=True)), nontrivial=len(r["file"]) > 0, tags=tags,
                  size=len(c["ops"]), sample=case_json(c, r) if len(ctx.samples) < 2 and nrec > 2 else None)
     store_verdict(ctx, good_c, good_r, res, f0)
@@ -592,7 +668,7 @@ def live_verdict(ctx, hists, res):
 
 # ------------------------------------------------------------------ (C) end to end
 MAXEV = 4096
-HOWS = {"sigkill": 0, "segv": 1, "abort": 2, "_exit": 3, "execv": 4, "exit": 5, "none": 9}
+HOWS = {"sigkill": 0, "segv": 1, "abort": 2, "_exit": 3, "execv": 4, "exit": 5, "sigusr1": 6, "none": 9}
 
 PROG_HEAD = r"""
 #define _GNU_SOURCE
@@ -622,6 +698,7 @@ NOI static void die(void)
 	case 3: _exit(3); break;
 	case 4: execv(self_argv[0], self_argv); break;        /* the same traced program, in the same task */
 	case 5: exit(4); break;
+	case 6: raise(SIGUSR1); break;                       /* --signal SIGUSR1@finish: the program goes on */
 	}
 }
 NOI static void LOG(int x, int k)
@@ -805,16 +882,18 @@ def run_e2e(ctx, objdir):
             sh(["timeout", "20", exe, full, "-1", "-1", "9"], check=True, cwd=work)      # (-pg: gmon.out goes to cwd)
             logs = read_log(full, nth)
             most = max(len(l) for _, l in logs)
-            if (350 <= most <= 1000) if big else (6 <= most <= 300):
+            if (350 <= most <= 700) if big else (6 <= most <= 300):
                 break
         progs.append({"exe": exe, "nth": nth, "nf": nf, "ftab": func_table(exe, nf), "full": logs,
-                      "src": src, "id": pi})
+                      "src": src, "id": pi, "big": big})
     cases = []
-    hows = ["sigkill", "segv", "abort", "_exit", "execv", "exit", "finish"]
-    per = ctx.n(14, 42)
+    hows = ["sigkill", "segv", "abort", "_exit", "execv", "exit", "finish", "sigfinish"]
+    per = ctx.n(16, 48)
     for pr in progs:
         for j in range(per):
             how = hows[j % len(hows)]
+            if how == "execv" and pr.get("big"):
+                how = "sigkill"         # (the two-image split check is quadratic in the number of records)
             th = rng.randrange(pr["nth"] + 1)
             total = len(pr["full"][th][1])
             if total == 0:
@@ -845,6 +924,9 @@ def run_e2e(ctx, objdir):
             if how == "finish":
                 k = pr["full"][th][1][at][1]
                 case.update({"how": "none", "finish": k, "th": -1, "at": -1, "opts": opts + ["-T", "f%d@finish" % k]})
+            if how == "sigfinish":
+                # signal trigger: the handler only sets the finish flag; every thread stops recording at its next hook
+                case.update({"how": "sigusr1", "sigfinish": True, "opts": opts + ["--signal", "SIGUSR1@finish"]})
             cases.append(case)
     t0 = time.time()
     with concurrent.futures.ThreadPoolExecutor(max_workers=6) as ex:
@@ -864,8 +946,8 @@ def e2e_judge(ctx, progs, cases, obs):
     for ci, (case, ob) in enumerate(zip(cases, obs)):
         pr = progs[case["prog"]]
         rj = {"line": "e2e", "case": case, "program": pr["src"]}
-        how = "finish" if "finish" in case else case["how"]
-        tags = ["e2e:how=" + how, "e2e:threads=%d" % (pr["nth"] + 1)] + ["e2e:opt=" + o for o in case["opts"] if o.startswith("-") and o != "-T"]
+        how = "finish" if "finish" in case else "sigfinish" if case.get("sigfinish") else case["how"]
+        tags = ["e2e:how=" + how, "e2e:threads=%d" % (pr["nth"] + 1)] + ["e2e:opt=" + o for o in case["opts"] if o.startswith("-") and o not in ("-T", "--signal")]
         if ob.get("skipped"):
             continue
         if ob.get("timeout"):
@@ -899,7 +981,7 @@ def e2e_judge(ctx, progs, cases, obs):
         for ti, (tid, log) in enumerate(ob["logs"]):
             if tid:
                 per_tid.setdefault(tid, {"l1": [], "l2": [], "ti": ti, "c1": False, "c2": False})
-                per_tid[tid]["l1"] = pr["full"][ti][1] if how == "finish" else log
+                per_tid[tid]["l1"] = pr["full"][ti][1] if how in ("finish", "sigfinish") else log
                 per_tid[tid]["c1"] = how in ("segv", "abort") and ti == case["th"]
         for ti, (tid, log) in enumerate(ob.get("logs2", [])):
             if tid:
@@ -935,7 +1017,7 @@ def e2e_judge(ctx, progs, cases, obs):
     for i in coq.parse_nat_list(res["violations"])[:3]:
         ci, ti, tid = owner[i]
         case, ob = cases[ci], obs[ci]
-        how = "finish" if "finish" in case else case["how"]
+        how = "finish" if "finish" in case else "sigfinish" if case.get("sigfinish") else case["how"]
         ctx.violation("C04 violated (end to end): %d.dat (thread %d) left after the tracee %s is not made of whole records "
                       "forming a prefix of what the thread executed%s" % (
                           tid, ti, how, " / misses open calls of the crashing thread" if how in ("segv", "abort") else ""),
@@ -1059,9 +1141,12 @@ def common_meta(ctx):
     ]
     ctx.assume = [
         "shm allocation never fails and no record is lost (C03 covers LOST); no filters/triggers besides argument "
-        "specs (C05); one thread per data file in the model (threads are exercised end to end only)",
-        "a record fits into an empty buffer (the code does not re-check after switching buffers); the thread's "
-        "set-up (prepare_shmem_buffer: two buffers, REC_START 0) is complete before the first modelled step",
+        "specs, -N functions and the finish / signal triggers (C05); one thread per data file in the model (threads are "
+        "exercised end to end only)",
+        "after the message pipe was closed, a thread that moves on to a buffer the recorder never hears of is abstracted "
+        "to a `dark` state: its later stores are not modelled (the tie checks on the real code that they do not reach "
+        "the data file)",
+        "a record fits into an empty buffer (the code does not re-check after switching buffers)",
         "stores become visible to the recorder in program order (x86-TSO; the recorder reads after the tracee died)",
         "the kernel delivers POLLHUP / SIGCHLD and /proc/<tid>/stat eventually shows every dead task (oracle `dead`)",
         "kill instants are instruction boundaries observed through (size, RECORDING bit); instants inside one "
